@@ -2,7 +2,7 @@
 # Runs every mutant in /verif/mutants against the check of the property named by its prefix
 # (cNN_* -> CNN; revert_Dx via the table below). Output: one line per mutant.
 cd "$(dirname "$0")/.."
-declare -A REV=( [D1]="C09" [D2]="C08" [D3]="C05 C11" [D4]="C16" [D5]="C07" [D7]="C04" [D8]="C04" [D17]="C04" [D10]="C10" [D12]="C09" [D13a]="C12" [D13b]="C07" [D15]="C14" [D16]="C07" [D18]="C19" [D19]="C19" [D20]="C19" )
+declare -A REV=( [D1]="C09" [D2]="C08" [D3]="C05 C11" [D4]="C16" [D5]="C07" [D7]="C04" [D8]="C04" [D17]="C04" [D10]="C10" [D12]="C09" [D13a]="C12" [D13b]="C07" [D15]="C14" [D16]="C07" [D18]="C19" [D19]="C19" [D20]="C19" [D21]="C01 C04" )
 for f in mutants/${1:-*}.diff; do
   n=$(basename $f .diff)
   if [[ $n == revert_* ]]; then props=${REV[${n#revert_}]}; else p=${n%%_*}; props="C${p#c}"; fi
